@@ -5,6 +5,7 @@ import (
 	"fmt"
 	"go/token"
 	"go/types"
+	"os"
 	"sort"
 	"strings"
 
@@ -215,11 +216,11 @@ func (ex *Exec) doAssert(id string, c *Term, fr *Frame, pos token.Pos) {
 	s.assert(tNot(c))
 	r := s.check()
 	var m map[string]string
+	ts := make([]*Term, len(ex.inputs))
+	for i, in := range ex.inputs {
+		ts[i] = in.T
+	}
 	if r == "sat" {
-		ts := make([]*Term, len(ex.inputs))
-		for i, in := range ex.inputs {
-			ts[i] = in.T
-		}
 		vals, ok := s.getValues(ts)
 		if ok {
 			m = map[string]string{}
@@ -229,6 +230,16 @@ func (ex *Exec) doAssert(id string, c *Term, fr *Frame, pos token.Pos) {
 		}
 	}
 	s.pop()
+	if r == "unknown" {
+		var vals []uint64
+		r, vals = ex.fallbackQuery(tNot(c), ts)
+		if r == "sat" {
+			m = map[string]string{}
+			for i, in := range ex.inputs {
+				m[in.Name] = fmt.Sprintf("%d", vals[i])
+			}
+		}
+	}
 	switch r {
 	case "unsat":
 		ex.nAssertUnsat++
@@ -241,6 +252,9 @@ func (ex *Exec) doAssert(id string, c *Term, fr *Frame, pos token.Pos) {
 	default:
 		ex.nUnknown++
 		ex.addEvent("unknown", id, nil)
+		if dir := os.Getenv("VERIF_DUMP_UNKNOWN"); dir != "" {
+			ex.dumpQuery(fmt.Sprintf("%s/unknown-%s-%d.smt2", dir, sanitize(id), len(ex.pc)), tNot(c))
+		}
 	}
 	// continue under the assertion
 	ex.assume(c)
@@ -610,4 +624,20 @@ func (ex *Exec) keyTemplate(k Value) keyTmpl {
 		return keyTmpl{text: "<symbolic-key>"}
 	}
 	return keyTmpl{text: s}
+}
+
+// dumpQuery writes the current path condition plus goal as a standalone SMT-LIB2 script (debugging aid).
+func (ex *Exec) dumpQuery(path string, goal *Term) {
+	f, err := os.Create(path)
+	if err != nil {
+		return
+	}
+	defer f.Close()
+	d := &Solver{kind: "dump", in: f, defined: map[int64]int{}, declared: map[string]int{}}
+	d.send("(set-logic ALL)")
+	for _, p := range ex.pc {
+		d.assert(p)
+	}
+	d.assert(goal)
+	d.send("(check-sat)")
 }
